@@ -79,6 +79,7 @@ struct Tally {
     clock_jumps: u64,
     stalls: u64,
     lock_blocks: u64,
+    preemptions: u64,
     partitions: u64,
     step_limit_runs: u64,
     cut_short_by_other_property: u64,
@@ -162,6 +163,7 @@ fn one_run(prop: &str, sc: &Scenario, tally: &mut Tally) -> Result<Vec<Finding>,
     tally.clock_jumps += s.clock_jumps;
     tally.stalls += s.stalls;
     tally.lock_blocks += s.lock_blocks;
+    tally.preemptions += s.preemptions;
     tally.partitions += sc.root.iter().filter(|(_, st)| matches!(st, scenario::RootStep::Partition { .. })).count() as u64;
     if an.stats.cut_short {
         tally.step_limit_runs += 1;
@@ -643,7 +645,7 @@ fn check(prop: &str, tier: &str, verif_seed: u64, runs_override: Option<u64>, jo
                 "payload_byte_minus": tally.payload_faults[3], "payload_zero_length": tally.payload_faults[4], "payload_garbage": tally.payload_faults[5],
                 "send_syscall_errors": tally.send_errors, "recv_interrupted": tally.recv_interrupts, "recv_timeouts": tally.recv_timeouts,
                 "oversleeps": tally.oversleeps, "node_crashes": tally.crashes, "clock_jumps": tally.clock_jumps, "node_stalls": tally.stalls,
-                "partitions": tally.partitions, "lock_contention_blocks": tally.lock_blocks,
+                "partitions": tally.partitions, "lock_contention_blocks": tally.lock_blocks, "thread_preemptions_at_sync_points": tally.preemptions,
             },
             "oracle_probes": tally.ostats,
             "runs_hitting_step_limit": tally.step_limit_runs,
@@ -703,6 +705,7 @@ fn merge(a: &mut Tally, b: Tally) {
     a.clock_jumps += b.clock_jumps;
     a.stalls += b.stalls;
     a.lock_blocks += b.lock_blocks;
+    a.preemptions += b.preemptions;
     a.partitions += b.partitions;
     a.step_limit_runs += b.step_limit_runs;
     a.cut_short_by_other_property += b.cut_short_by_other_property;
